@@ -634,7 +634,7 @@ class Function(NameAliasMixin, TokenList):
                 return token.get_identifiers()
             elif imt(token, i=(Function, Identifier, TypedLiteral, Operation,
                                Comparison, Case, Parenthesis),
-                     t=T.Literal):
+                     t=[T.Literal, T.Name.Placeholder]):
                 result.append(token)
         return result
 
